@@ -35,6 +35,23 @@ theorem C07_accumulate_sub (rows : List (List Int)) :
     (fun C x l => Proofs.ScanRows.sub_repair C x l)
     (fun x => ⟨2 * x, by show 2 * x - x = x; omega⟩) rows
 
+/-- FIXED-WIDTH WRAP-AROUND: `np.add.accumulate` / `np.subtract.accumulate` keep the array's dtype, so the global
+scan and the repair by the inverse operation run in arithmetic modulo `2^w` (int8 … uint64 are `BitVec w` up to the
+reading of the top bit); the trick is valid there as well, for every width -/
+theorem C07_accumulate_add_wrap (w : Nat) (rows : List (List (BitVec w))) :
+    (rowAccumulate (· + ·) (· - ·) (· + ·) (RA.ofRows rows)).rows = rows.map (Spec.accumulate (· + ·)) :=
+  Proofs.ScanRows.rowAccumulate_ofRows (· + ·) (· - ·) (· + ·)
+    (fun C x => by show C + (x - C) = x; rw [BitVec.add_comm, BitVec.sub_add_cancel])
+    (fun C x l => Proofs.ScanRows.bv_add_repair w C x l)
+    (fun x => ⟨0, by show 0 + x = x; exact BitVec.zero_add x⟩) rows
+
+theorem C07_accumulate_sub_wrap (w : Nat) (rows : List (List (BitVec w))) :
+    (rowAccumulate (· - ·) (· - ·) (· + ·) (RA.ofRows rows)).rows = rows.map (Spec.accumulate (· - ·)) :=
+  Proofs.ScanRows.rowAccumulate_ofRows (· - ·) (· - ·) (· + ·)
+    (fun C x => by show C + (x - C) = x; rw [BitVec.add_comm, BitVec.sub_add_cancel])
+    (fun C x l => Proofs.ScanRows.bv_sub_repair w C x l)
+    (fun x => ⟨x + x, by show x + x - x = x; exact BitVec.add_sub_cancel x x⟩) rows
+
 /-- `np.bitwise_xor.accumulate`, for any XOR-like type of bit patterns -/
 theorem C07_accumulate_xor [XorLike α] (rows : List (List α)) :
     (rowAccumulate XorLike.xor XorLike.xor XorLike.xor (RA.ofRows rows)).rows =
@@ -58,6 +75,10 @@ theorem C07_diff (n : Nat) (rows : List (List Int)) :
   Proofs.DiffRows.diffRows_ofRows n rows
 
 /-! ## non-vacuity: concrete instances, evaluated on the model (left) and on the spec (right) -/
+
+/- wrap-around in uint8: 200 + 100 = 44 (mod 256), the second row starts afresh although the global scan has wrapped -/
+example : (rowAccumulate (· + ·) (· - ·) (· + ·) (RA.ofRows [[200#8, 100#8], [], [255#8, 1#8, 7#8]])).rows =
+    [[200#8, 44#8], [], [255#8, 0#8, 7#8]] := by decide
 
 /- empty rows in the middle and at the end (the trailing one reads its offset at a clamped
 position) -/
